@@ -37,7 +37,7 @@ fn meta() -> Meta {
     Meta {
         id: "C09",
         level: "model_checking",
-        rule: "every sequence up to the depth bound of (clock step, write) with steps {0, +1 s, +2 s, +1 min, +1 h, +1 day, +31 days (same day of next month), +365 days (same date next year), +40 days}, from 7 base instants (mid-period, 2 s before a minute / hour / month+day / year boundary, and 0.4 s before a minute / day boundary), for Age{Second,Minute,Hour,Day} x naming x start {fresh, append onto a current file of the same period, of an earlier period, onto an empty one of an earlier period} x {Age, AgeOrSize huge, AgeOrSize small} x {TZ UTC, Asia/Kolkata, Asia/Kolkata+use_utc, America/St_Johns}; states = distinct (configuration, partition shape) reached; non-trivial = at least one age rotation predicted; two more base instants lie 0.4 s before a minute / day boundary; the seeded current file is over the limit for AgeOrSize(small); a fourth start state appends onto an empty current file of an earlier period",
+        rule: "every sequence up to the depth bound of (clock step, write) with steps {0, +1 s, +2 s, +1 min, +1 h, +1 day, +31 days (same day of next month), +365 days (same date next year), +40 days}, from 7 base instants (mid-period, 2 s before a minute / hour / month+day / year boundary, and 0.4 s before a minute / day boundary), for Age{Second,Minute,Hour,Day} x naming x start {fresh, append onto a current file of the same period, of an earlier period, onto an empty one of an earlier period} x {Age, AgeOrSize huge, AgeOrSize small} x {TZ UTC, Asia/Kolkata, Asia/Kolkata+use_utc, America/St_Johns}; states = distinct (configuration, partition shape) reached; non-trivial = at least one age rotation predicted; two more base instants lie 0.4 s before a minute / day boundary; the seeded current file is over the limit for AgeOrSize(small); a fourth start state appends onto an empty current file of an earlier period; a seventh naming whose names do not sort chronologically (day first), and a start state with an older file besides the current one",
         assumptions: vec![
             "the clock seam (guarded hook) replaces Local::now() and the creation-time lookup; a real-time Age::Second run without the hook cross-checks the file-metadata path (thorough tier)".into(),
             "no write instants inside a DST fall-back hour".into(),
